@@ -8,7 +8,7 @@
 From V.model Require Import Base RelLex RelParse RelAcc RelGrammar RelGrammarAll.
 From V.model Require Import RelEdit RelEditSpec RelEditTree RelLiveAll.
 From V.proofs Require Import BaseP RelEditP RelEditStP RelEditHistP RelEditTreeP RelEditReplaceP RelEditBuildP RelGrammarAllAccP.
-From V.proofs Require Import RelLiveAllP RelLiveAllStepP RelLiveAllWfP RelLiveAllNormP.
+From V.proofs Require Import RelLiveAllP RelLiveAllStepP RelLiveAllWfP RelLiveAllNormP RelSepsP RelLiveAllSepsP RelEditVersionP.
 
 (* an alternative of a live layout begins with its name *)
 Lemma relation_child_lrel e x : In x (lentry_children e) -> is_relation x = true -> exists r, x = lrel_tree r.
@@ -93,6 +93,46 @@ Proof.
     exists l', st'. cbn [a_ops compile_all flat_map fold_left]. rewrite Ha.
     split; [exact Ha'|]. split; [eapply run_ops_app; [exact R1|exact R']|]. split; [exact Hst'|]. split; [exact Hw'|].
     rewrite Hc', Hc1. reflexivity.
+Qed.
+
+(* one operation, with the separators *)
+Theorem live_step_seps b o l st : lwf b l = true -> operands_ok o = true ->
+  x_in_range (fst (lcontent l)) o = true -> holds st (ltree l) ->
+  exists l' st', a_op o l = Some l' /\
+                 run_ops fixed (compile o) st = Ok st' /\ holds st' (ltree l') /\
+                 lwf b l' = true /\
+                 lcontent l' = (xstep (fst (lcontent l)) o, snd (lcontent l)) /\
+                 lentries l' = estep (lentries l) o /\
+                 field_shape (ltree l') = true /\
+                 tree_slots (ltree l') = sstep (fst (lcontent l)) (tree_slots (ltree l)) o.
+Proof.
+  intros H Ho Hr Hst. destruct (live_step b o l st H Ho Hr Hst) as (l' & st' & Ha & R & Hst' & Hw & Hc & He).
+  exists l', st'. repeat (split; [assumption|]). split; [now apply (shape_ltree b)|now apply (a_op_slots b)].
+Qed.
+(* the same, and what the history did to the separators: RelEditSpec.slots_after *)
+Lemma slots_after_cons o rest f s : slots_after (o :: rest) f s = slots_after rest (astep f o) (sstep f s o).
+Proof. reflexivity. Qed.
+Theorem live_history_seps b ops : forall l st, lwf b l = true -> forallb operands_ok ops = true ->
+  hist_in_range (fst (lcontent l)) ops = true -> holds st (ltree l) ->
+  exists l' st', a_ops ops l = Some l' /\
+                 run_ops fixed (compile_all ops) st = Ok st' /\ holds st' (ltree l') /\
+                 lwf b l' = true /\
+                 lcontent l' = (fold_left astep ops (fst (lcontent l)), snd (lcontent l)) /\
+                 field_shape (ltree l') = true /\
+                 tree_slots (ltree l') = slots_after ops (fst (lcontent l)) (tree_slots (ltree l)).
+Proof.
+  induction ops as [|o rest IH]; intros l st H Ho Hr Hst.
+  - exists l, st. cbn [a_ops compile_all flat_map run_ops fold_left]. split; [reflexivity|]. split; [reflexivity|]. split; [exact Hst|]. split; [exact H|].
+    split; [now destruct (lcontent l)|]. split; [now apply (shape_ltree b)|reflexivity].
+  - cbn [forallb hist_in_range] in *. andb_hyps.
+    destruct (live_step b o l st) as (l1 & st1 & Ha & R1 & Hst1 & Hw1 & Hc1 & _); auto.
+    pose proof (a_op_slots b o l l1 H Ha) as Hs1.
+    destruct (IH l1 st1) as (l' & st' & Ha' & R' & Hst' & Hw' & Hc' & Hsh' & Hs'); auto.
+    { rewrite Hc1. cbn [fst]. assumption. }
+    exists l', st'. cbn [a_ops compile_all flat_map fold_left]. rewrite Ha.
+    split; [exact Ha'|]. split; [eapply run_ops_app; [exact R1|exact R']|]. split; [exact Hst'|]. split; [exact Hw'|].
+    split; [rewrite Hc', Hc1; reflexivity|]. split; [exact Hsh'|].
+    rewrite Hs', Hs1, Hc1, slots_after_cons. reflexivity.
 Qed.
 
 (* ------------------------------------------------------------------ the start: any text read without error *)
@@ -197,13 +237,38 @@ Proof.
 Qed.
 
 (* ------------------------------------------------------------------ C11, in full *)
-Theorem C11_full_fixed : C11_full fixed.
+Theorem C11_full_raw_fixed : C11_full_raw fixed.
 Proof.
   intros s t0 f0 ops Hp Hs Hr Ho.
   destruct (start_layout true s t0 f0 Hp Hs) as (l0 & <- & Hw & <-).
-  destruct (live_history true ops l0 (start_state (ltree l0)) Hw Ho Hr (holds_start _)) as (l' & st' & Ha & R & Hst' & Hw' & Hc').
+  destruct (live_history_seps true ops l0 (start_state (ltree l0)) Hw Ho Hr (holds_start _)) as (l' & st' & Ha & R & Hst' & Hw' & Hc' & Hsh' & Hsl').
   exists st'. split; [exact R|]. destruct (holds_root_tree _ _ Hst') as [RT _]. exists (ltree l'). split; [exact RT|].
   destruct (structure_live true l' Hw') as [S1 S2]. destruct (structure_live true l0 Hw) as [_ S0].
   rewrite Hc' in S1, S2. cbn [fst snd] in S1, S2. split; [exact S1|]. split; [now rewrite S2, S0|].
+  split; [exact Hsh'|]. split; [exact Hsl'|].
   destruct (live_reread true l' Hw') as (t'' & P & _ & S'' & _). exists t''. split; [exact P|]. rewrite S'', Hc'. reflexivity.
+Qed.
+(* with the version texts through debversion: the accessors as the callers see them *)
+Theorem C11_full_fixed : C11_full fixed.
+Proof.
+  intros s t0 f0 ops Hp Hs Hr Ho.
+  destruct (structure_d_inv t0 f0 Hs) as (fr & Hsr & Hd). apply field_display_ok in Hd.
+  destruct (display_history ops fr f0 Hd Ho) as [Hd' Hr'].
+  rewrite Hr in Hr'. symmetry in Hr'.
+  destruct (C11_full_raw_fixed s t0 fr ops Hp Hsr Hr' Ho) as (st' & R & t' & RT & S1 & S2 & Hsh & Hsl & t'' & P & S3).
+  exists st'. split; [exact R|]. exists t'. split; [exact RT|].
+  apply field_display_ok in Hd'.
+  split; [now rewrite (structure_d_of t' _ S1)|]. split; [exact S2|]. split; [exact Hsh|].
+  split.
+  - rewrite Hsl. unfold slots_after. clear -Hd Ho.
+    assert (G : forall ops1 f f' s0, fshows f f' -> forallb wf_operands ops1 = true ->
+              snd (fold_left fs_step ops1 (f, s0)) = snd (fold_left fs_step ops1 (f', s0))).
+    { induction ops1 as [|o rest IH]; intros f f' s0 Hf Hoo; [reflexivity|]. cbn [forallb] in Hoo. apply andb_prop in Hoo as [Ho1 Ho2].
+      cbn [fold_left]. unfold fs_step at 2 4. cbn [fst snd]. destruct (display_step f f' o Hf Ho1) as [Hf' _].
+      replace (sstep f' s0 o) with (sstep f s0 o); [now apply IH|].
+      destruct o; cbn [sstep]; try reflexivity.
+      pose proof (Forall2_nth_error _ _ _ Hf i) as Hn. destruct (nth_error f i) as [e|], (nth_error f' i) as [e'|]; try contradiction; [|reflexivity].
+      pose proof (Forall2_len _ _ _ Hn) as Hl. destruct e as [|x [|y e]], e' as [|x' [|y' e']]; cbn [length] in Hl; try lia; reflexivity. }
+    now apply G.
+  - exists t''. split; [exact P|]. now rewrite (structure_d_of t'' _ S3).
 Qed.
